@@ -67,11 +67,15 @@ def enc(node):
         return b'\x05\x05' + enc(node[1])
     if t == 'right':
         return b'\x05\x08' + enc(node[1])
+    if t == 'raw':      # address / key_hash: packed as the bytes of the optimized form
+        return b'\x0a' + len(node[2]).to_bytes(4, 'big') + node[2]
     raise ValueError(node)
 
 
 def lit(node):
     t = node[0]
+    if t == 'raw':
+        return '"%s"' % node[1]
     return {'s': lambda: '"%s"' % node[1], 'n': lambda: str(node[1]), 'b': lambda: '0x' + node[1].hex(), 'p': lambda: '(Pair %s)' % ' '.join(lit(x) for x in node[1]),
             'bool': lambda: 'True' if node[1] else 'False', 'none': lambda: 'None', 'some': lambda: '(Some %s)' % lit(node[1]),
             'left': lambda: '(Left %s)' % lit(node[1]), 'right': lambda: '(Right %s)' % lit(node[1])}[t]()
@@ -79,7 +83,7 @@ def lit(node):
 
 def mich(node):
     t = node[0]
-    if t == 's':
+    if t in ('s', 'raw'):
         return {'string': node[1]}
     if t == 'n':
         return {'int': str(node[1])}
@@ -120,6 +124,9 @@ FAMILIES = {
     'comb4': ('pair nat nat nat nat', {'a': ('p', [N(0), N(0), N(0), N(0)]), 'b': ('p', [N(1), N(2), N(3), N(4)]), 'c': ('p', [N(1), N(2), N(3), N(5)])}),
     'comb3n': ('pair (pair nat nat) bool (option nat)', {'a': ('p', [('p', [N(1), N(2)]), ('bool', False), ('none',)]), 'b': ('p', [('p', [N(1), N(2)]), ('bool', False), ('some', N(0))]),
                                                          'c': ('p', [('p', [N(2), N(1)]), ('bool', True), ('none',)])}),
+    # the same three tz1 texts as keys of type address and of type key_hash: equal texts, different packed forms (22 / 21 bytes), hence different key hashes
+    'address': ('address', {k: ('raw', b58.address_from_bytes(b'\x00\x00' + bytes([n]) * 20), b'\x00\x00' + bytes([n]) * 20) for k, n in (('a', 1), ('b', 2), ('c', 3))}),
+    'key_hash': ('key_hash', {k: ('raw', b58.address_from_bytes(b'\x00\x00' + bytes([n]) * 20), b'\x00' + bytes([n]) * 20) for k, n in (('a', 1), ('b', 2), ('c', 3))}),
     'or': ('or nat (or bool nat)', {'a': ('left', N(0)), 'b': ('right', ('left', ('bool', False))), 'c': ('right', ('right', N(0)))}),
 }
 
